@@ -17,6 +17,11 @@ import (
 )
 
 func add(rootGoitPath, path string, index *store.Index) error {
+	// the metadata directory is never staged, whichever way the path is spelled (absolute, through ..)
+	if path == rootGoitPath || strings.HasPrefix(path, rootGoitPath+string(filepath.Separator)) {
+		return nil
+	}
+
 	data, err := os.ReadFile(path)
 	if err != nil {
 		return fmt.Errorf("%w: %s", ErrIOHandling, path)
@@ -38,6 +43,9 @@ func add(rootGoitPath, path string, index *store.Index) error {
 		return err
 	}
 	cleanedRelPath := strings.ReplaceAll(relPath, `\`, "/") // replace backslash with slash
+	if cleanedRelPath == ".." || strings.HasPrefix(cleanedRelPath, "../") {
+		return fmt.Errorf("fatal: %s: '%s' is outside repository", path, path)
+	}
 	byteRelPath := []byte(cleanedRelPath)
 
 	// write object to file
